@@ -244,7 +244,11 @@ func judge(c *testCase) outcome {
 	// Determinism: fresh Parse + Lower + Compile runs give the same bytes
 	// (three further runs: the order-dependent choices seen so far flip
 	// with probability about one half per run).
-	for run := 0; run < 3; run++ {
+	runs := 3
+	if c.Origin == "known" {
+		runs = 12 // replay of a listed determinism finding: make a miss unlikely
+	}
+	for run := 0; run < runs; run++ {
 		mod2, _ := lower(c)
 		if mod2 == nil {
 			add("determinism: another Parse/Lower of the same source failed")
@@ -283,7 +287,6 @@ var knownFamilies = []struct {
 		"bc.function.cast:", "bc.function.call:", "bc.function.ret:", "bc.function.opcode:", "bc.function.aggindex:", "bc.function.switch:",
 		"bc.value.type:", "bc.constants.reftype:"}},
 	{"dxil-operand-encoding", []string{"bc.function.record:", "bc.type.ref: function"}},
-	{"dxil-nondeterministic-phi-order", []string{"determinism: two compilations"}},
 }
 
 // partition splits issue lines into those that fail the property and those
